@@ -31,6 +31,7 @@ type agg struct {
 	otherClauses                   map[string]int
 	samples                        []any
 	owned                          map[string]*failing // key clause|site
+	ownedHits                      map[string]int
 	harnessMsgs                    []string
 	trouble                        []string
 	suspects                       []rt.Params
@@ -41,7 +42,7 @@ type agg struct {
 
 func newAgg() *agg {
 	return &agg{faults: map[string]int{}, probes: map[string]int{}, cells: map[string]bool{}, traces: map[string]bool{},
-		states: map[string]bool{}, perScen: map[string]int{}, otherClauses: map[string]int{}, owned: map[string]*failing{}, extra: map[string]int64{}}
+		states: map[string]bool{}, perScen: map[string]int{}, otherClauses: map[string]int{}, owned: map[string]*failing{}, ownedHits: map[string]int{}, extra: map[string]int64{}}
 }
 
 func (a *agg) add(p *propSpec, r rt.Result) {
@@ -96,12 +97,17 @@ func (a *agg) add(p *propSpec, r rt.Result) {
 			"steps": r.Steps, "preemptions": r.Preempts, "faults": r.Faults,
 		})
 	}
+	seenInRun := map[string]bool{}
 	for _, v := range r.Violations {
 		if !p.owns(v.Clause) {
 			a.otherClauses[v.Clause]++
 			continue
 		}
 		k := v.Clause + "|" + v.Site
+		if !seenInRun[k] {
+			seenInRun[k] = true
+			a.ownedHits[k]++ // runs, not violations
+		}
 		if f, ok := a.owned[k]; !ok || r.Steps < f.res.Steps {
 			a.owned[k] = &failing{res: r, v: v}
 		}
@@ -190,6 +196,25 @@ func runCheck(e *env, p *propSpec, tier string) int {
 	idx := uint64(0)
 	batchNo := 0
 	stop := false
+	if only := os.Getenv("VERIF_ONLY"); only != "" { // exploration aid, never set by registered commands: "scen" or "scen:k=v,k=v"
+		name, opts, _ := strings.Cut(only, ":")
+		sp := scenSpec{Name: name, Weight: 1}
+		for _, s := range p.Scens {
+			if s.Name == name {
+				sp.Batch = s.Batch
+			}
+		}
+		if opts != "" {
+			sp.Opt = map[string]string{}
+			for _, kv := range strings.Split(opts, ",") {
+				k, v, _ := strings.Cut(kv, "=")
+				sp.Opt[k] = v
+			}
+		}
+		pc := *p
+		pc.Scens = []scenSpec{sp}
+		p = &pc
+	}
 	totalW := 0
 	for _, s := range p.Scens {
 		totalW += s.Weight
@@ -317,7 +342,7 @@ func runCheck(e *env, p *propSpec, tier string) int {
 	keys := sortedKeys(a.owned)
 	if os.Getenv("VERIF_KEEP_GOING") != "" {
 		for _, k := range keys {
-			fmt.Printf("vcheck: distinct violation %s (seed %d): %s\n", k, a.owned[k].res.Params.Seed, trimLines(a.owned[k].v.Detail, 2))
+			fmt.Printf("vcheck: distinct violation %s (seed %d, %d hits in %d runs): %s\n", k, a.owned[k].res.Params.Seed, a.ownedHits[k], a.runs, trimLines(a.owned[k].v.Detail, 2))
 		}
 	}
 	reported := 0
